@@ -430,8 +430,18 @@ def _active_props(mm, fn, lp, pv, u, st_):
     if not names:
         return None
     active = set()
-    for p_ in names:
-        env = {pv: p_, 'self._properties': list(names)}
+    # (the list of DEFINED properties differs from model to model: the
+    # decision is evaluated for every anisotropy case with / without mu_r and
+    # epsilon_r; a name counts as active if it is active for some model)
+    variants = []
+    for ani in (['property_x'], ['property_x', 'property_y'],
+                ['property_x', 'property_z'],
+                ['property_x', 'property_y', 'property_z']):
+        for extra in ([], ['mu_r'], ['epsilon_r'], ['mu_r', 'epsilon_r']):
+            variants.append(ani + extra)
+    for p_, defs_ in [(p_, v_) for v_ in variants for p_ in v_]:
+        env = {pv: p_, 'self._properties': list(names),
+               'self._def_properties': list(defs_)}
         fe = FiniteEval(env, where=mm.rel)
         # locals of the loop body that are functions of the name alone
         for a in lp.body:
